@@ -36,7 +36,7 @@ func (e *Engine) hofSiteKey(instr ssa.Instruction, callee string) string {
 				return fmt.Sprintf("%s#%d", callee, n)
 			}
 			if ci, ok := in.(ssa.CallInstruction); ok {
-				if sc := ci.Common().StaticCallee(); sc != nil && sc.Name() == callee {
+				if sc := ci.Common().StaticCallee(); sc != nil && stripTypeArgs(sc.Name()) == callee {
 					n++
 				}
 			}
